@@ -44,7 +44,9 @@ def check_case(ctx, case):
     try:
         with quiet():
             Vs = Variogram(coords, values, **kw)                       # sparse
-            ms = MetricSpace(coords.copy(), kw['dist_func'])             # dense, shared
+            buf_ = coords.copy()
+            ms = MetricSpace(buf_, kw['dist_func'])             # dense, shared
+            vario.recycle(buf_)
             Vd = Variogram(ms, values, **kw)
             Vd2 = Variogram(ms, values, **kw)                          # second user of the same space
         if kw['dist_func'] != 'euclidean':
@@ -116,7 +118,9 @@ def check_case(ctx, case):
     # maxlag and then with this one / with none: earlier users must not change what later users see
     try:
         with quiet():
-            lazy = MetricSpace(coords.copy(), kw['dist_func'])
+            buf_ = coords.copy()
+            lazy = MetricSpace(buf_, kw['dist_func'])
+            vario.recycle(buf_)
             small = max(1.0, float(M) * 0.5)
             observe(Variogram(lazy, values, **dict(kw, maxlag=small)))
             el, cl, xl = observe(Variogram(lazy, values, **kw))
